@@ -37,6 +37,8 @@ type FailureReason struct {
 func ReadReasonMap(source io.Reader) ([]*FailureReason, error) {
 	if length, err := ReadInt(source); err != nil {
 		return nil, fmt.Errorf("cannot read reason map length: %w", err)
+	} else if length < 0 {
+		return nil, fmt.Errorf("cannot read reason map: expected length >= 0, got: %d", length)
 	} else {
 		reasonMap := make([]*FailureReason, length)
 		for i := 0; i < int(length); i++ {
